@@ -7,7 +7,8 @@ from ..wire import val_tokens, OutOfUniverse
 ID = 'C06'
 LEAN_TARGETS = ['Properties.C06']
 THEOREMS = ['Hash.C06_dict_order', 'Hash.C06_set_order', 'Hash.C06_list_perm', 'Hash.C06_congr', 'Hash.C06_inner_perm',
-            'Hash.C06_N_set_ordered_mode']
+            'Hash.C06_N_set_ordered_mode', 'Hash.C06_memo_transparent', 'Hash.C06_shared_table_history', 'Hash.C06_preseeded', 'Hash.C06_noAlias_of_strict',
+            'Hash.C06_N_table_alias']
 RULE = ('nested values (dict/list/tuple/set/frozenset/scalars, repeated sub-objects, numerically equal numbers only where NoNumAlias holds) x the four '
         '(ignore_repetition, ignore_iterable_order) modes: digests and counts of the real DeepHash vs the compiled model with SHA-256; on the implementation: '
         'deep copies, re-inserted dicts, permuted lists (order-insensitive modes), shared and pre-seeded hashes tables, subprocesses with different PYTHONHASHSEED. '
@@ -203,6 +204,65 @@ def run(ctx, impl_only=False):
                 ctx.diverge(case, '%s %s' % (h, c), a_, op='HASH'); continue
             if mh != h or int(mc) != c:
                 ctx.diverge(case, '%s %s' % (h, c), '%s %s' % (mh, mc), op='HASH')
+        memo_correspondence(ctx, vals)
+
+
+def memo_correspondence(ctx, vals):
+    """the memo-table model (Model/Hash/Memo.lean): DeepHash(w) followed by DeepHash(v, hashes=<the same table>) against the model's threaded
+    table, digests and counts bit for bit - including the pairs where the table aliases two different values (1 / 1.0, tuples and frozensets
+    that are == but of different item types), which is the boundary of the transparency theorem (finding F6)"""
+    from deepdiff import DeepHash
+    alias = [1, 1.0, 0, 0.0, True, False, (1,), (1.0,), (True,), (0, 'a'), (False, 'a'), frozenset({1}), frozenset({1.0}), frozenset({2, 3}), 'a', b'a', None, 2, 2.5, '',
+             (1, (2.0, 'x')), (1.0, (2, 'x'))]
+    fixed = [(1, 1.0), (1.0, 1), (0, 0.0), (0.0, 0), ((1,), (1.0,)), ((True,), (1,)), ((1,), (True,)), ((0, 'a'), (False, 'a')), (frozenset({1}), frozenset({1.0})), (True, 1), (1, True),
+             ((1, (2.0, 'x')), (1.0, (2, 'x'))), ([1, 2], [1.0, 2]), ({'a': 1}, {'a': 1.0}), ({1: 'x'}, {1.0: 'x'}), ([(1, 2)], [(1.0, 2.0)]), ('a', b'a'), (2, 2.5)]
+    pairs = list(fixed) + [(v, w) for (w, v) in fixed[:6]]
+    n = 400 if ctx.thorough() else 80
+    for _ in range(n):
+        r = ctx.rng.random()
+        if r < 0.5:
+            w, v = ctx.rng.choice(alias), ctx.rng.choice(alias)
+        elif r < 0.7:
+            a, b = ctx.rng.choice(alias), ctx.rng.choice(alias)
+            w, v = [a, 'k', b], {'k': b, 'j': [a, b]}
+        elif r < 0.85:
+            w, v = ctx.rng.choice(vals), ctx.rng.choice(vals)
+        else:
+            w = ctx.rng.choice(vals)
+            v = [copy.deepcopy(w), ctx.rng.choice(alias)]
+        pairs.append((w, v))
+    lines, metas = [], []
+    for (w, v) in pairs:
+        for mname, (rep, order) in HS.MODES.items():
+            if not order and (HS.has_set(w) or HS.has_set(v)):
+                continue                      # region of finding F19
+            kw = dict(ignore_repetition=rep, ignore_iterable_order=order)
+            case = {'w': repr(w), 'value': repr(v), 'mode': mname, 'scenario': 'shared table'}
+            try:
+                t = {}
+                d1 = DeepHash(w, hashes=t, **kw)
+                r1 = (d1[w], d1.get(w, extract_index=1))
+                d2 = DeepHash(v, hashes=t, **kw)
+                r2 = (d2[v], d2.get(v, extract_index=1))
+                lines.append('HASHM ' + HS.cfg_tok(**kw) + ' ' + ' '.join(val_tokens(w, iter_sets=True)) + ' ' + ' '.join(val_tokens(v, iter_sets=True)))
+                metas.append((case, r1, r2))
+                ctx.evaluations += 1
+                ctx.count('memo_table:' + ('aliasing' if not HS.no_num_alias(w, v) else 'plain'))
+            except OutOfUniverse:
+                ctx.count('out_of_universe')
+            except Exception as e:
+                ctx.count('memo_raised:' + type(e).__name__)
+    ans = core.run_model(lines)
+    dec = lambda x: ''.join(chr(int(y)) for y in x.split('.')) if x != '_' else ''
+    for (case, r1, r2), a_ in zip(metas, ans):
+        ctx.traces += 1
+        try:
+            h1, c1, h2, c2 = a_.split(' ')
+            got = ((dec(h1), int(c1)), (dec(h2), int(c2)))
+        except Exception:
+            ctx.diverge(case, repr((r1, r2)), a_, op='HASHM'); continue
+        if got != (r1, r2):
+            ctx.diverge(case, repr((r1, r2)), repr(got), op='HASHM')
 
 
 def search(ctx):
